@@ -112,7 +112,7 @@ def run_all ():
   expect('norm does not inline an overridden helper', 'self._h(x)' in out)
   def normed_ext (src, inv_):
     t = ast.parse(src); saved = norm._INV; norm._INV = {'m': inv_}
-    try: t = norm.normalize_module(t, 'm', {}, external=lambda nm: nm == '_h')
+    try: t = norm.normalize_module(t, 'm', {}, external=lambda nm: nm in ('_h', 'm'))
     finally: norm._INV = saved
     return ast.unparse(t)
   out = normed_ext("def f(x):\n  return _h(x)\ndef _h(v):\n  return v + 1\n", {'f': ['x'], '<module>': []})
